@@ -19,7 +19,7 @@ from vf.coqlit import cbool, clist, cstr
 THEOREMS = [
     "C15_generated_facts", "C15_generated_timestamp_record", "C15_generated_reserved_distinct", "C15_generated_purity_shapes",
     "C15_merge_order_and_precedence", "C15_merge_wording", "C15_extend_values", "C15_originals_unchanged",
-    "C15_expand", "C15_grouped_view", "C15_grouped_set", "C15_grouped_replace", "C15_replace_project_only_named",
+    "C15_expand", "C15_grouped_view", "C15_nested_group_flattens", "C15_nested_group_prefix_refuted", "C15_grouped_set", "C15_grouped_replace", "C15_replace_project_only_named",
     "C15_init_from_record",
     "C15_expand_prefix_refuted", "C15_expand_metadata_prefix_refuted", "C15_grouped_replace_prefix_refuted",
     "C15_hyp_satisfiable",
@@ -149,7 +149,7 @@ Definition dflt (t : string) : val := match assoc t %s with Some v => v | None =
 Definition tsres : list val := [VNone; VNone; %s; vver].
 Definition desc_eqb (a b : list (string * string)) : bool :=
   list_eqb (fun x y => String.eqb (fst x) (fst y) && String.eqb (snd x) (snd y)) a b.
-Definition mk_group := @p_group_make val RES F.
+Definition mk_group := @p_group_make val RES gen_group_attrs F.
 Definition view := @p_group_view val RES dflt F.
 Definition ogroup_ok (o : option (@group val)) (ok : bool) (ms : list (@rec val)) (v : @rec val) : bool :=
   match o with
@@ -512,21 +512,18 @@ def case_expand(g, T):
     return terms, ("expand", repr(before)), nts >= 1 and (nts >= 2 or special)
 
 
-def build_group(g, depth=0, extra=None):
-    """-> (python GroupedRecord, name, args) ; args: records or nested (group, name, args) triples.
-    Member fields called like one of GroupedRecord's own attributes are generated only in groups WITHOUT nested groups
-    (nested: known finding C15-nested-group-attribute-name, probed separately)."""
+def build_group(g, depth=0):
+    """-> (python GroupedRecord, name, args) ; args: records or nested (group, name, args) triples.  Member fields may be
+    called like one of GroupedRecord's own attributes, also inside nested groups."""
     from flow.record import GroupedRecord
     rnd = g.rnd
     name = rnd.choice(["grp/x", "g", "grp/y"])
-    if extra is None:
-        extra = GROUP_ATTRS if rnd.random() < 0.5 else ()
     args = []
     for _ in range(rnd.randint(1 if depth else 2, 3)):
-        if not extra and depth < 2 and rnd.random() < 0.3:
-            args.append(build_group(g, depth + 1, extra=()))
+        if depth < 2 and rnd.random() < 0.25:
+            args.append(build_group(g, depth + 1))
         else:
-            args.append(g.record(g.descriptor(lo=0, hi=4, extra=extra)))
+            args.append(g.record(g.descriptor(lo=0, hi=4, extra=GROUP_ATTRS)))
     try:
         py = GroupedRecord(name, [a[0] if isinstance(a, tuple) else a for a in args])
     except Exception as e:  # noqa
@@ -536,23 +533,29 @@ def build_group(g, depth=0, extra=None):
 
 
 def probe_known(ctx):
-    """the two listed defect classes around member fields called like an attribute of the group object"""
+    """member fields called like an attribute of the group object: the nested-group case (repaired by 9fb63bd) must hold,
+    plain attribute access is a listed finding"""
     from flow.record import GroupedRecord, RecordDescriptor
     kf = {f["id"]: f for f in core.known_for("C15")}
     A = RecordDescriptor("probe/user", [("string", "name"), ("varint", "uid")])
-    r = A(name="alice", uid=1, _generated=GENS[0])
-    g = GroupedRecord("grp/p", [r])
-    for fid, got, wrong, what in (
-            ("C15-group-attribute-shadows-member-field", getattr(g, "name"), "grp/p",
-             "GroupedRecord('grp/p', [probe/user(name='alice')]).name"),
-            ("C15-nested-group-attribute-name", GroupedRecord("grp/o", [GroupedRecord("grp/i", [A(name="alice", uid=1, _generated=GENS[0])])])._asdict().get("name"),
-             "grp/i", "GroupedRecord('grp/o', [GroupedRecord('grp/i', [probe/user(name='alice')])])._asdict()['name']")):
-        if got == "alice":
-            ctx.notes.append("known finding %s no longer reproduces" % fid)
-        elif got == wrong and fid in kf:
-            ctx.known_finding(fid, kf[fid]["what"])
-        else:
-            ctx.violation("%s is %r, expected the member's value 'alice'" % (what, got), dict(kind="group-attribute-probe", finding=fid, got=repr(got)))
+    inner = GroupedRecord("grp/i", [A(name="alice", uid=1, _generated=GENS[0])])
+    outer = GroupedRecord("grp/o", [inner])
+    got = outer._asdict().get("name")
+    if got != "alice":
+        ctx.violation("GroupedRecord('grp/o', [GroupedRecord('grp/i', [probe/user(name='alice', uid=1)])])._asdict()['name'] is %r, "
+                      "expected the member's value 'alice' (the flat view of a nested group is that of the flattened members)" % (got,),
+                      dict(kind="group-attribute-probe", finding="nested-group-attribute-name", got=repr(got)))
+        return
+    g = GroupedRecord("grp/p", [A(name="alice", uid=1, _generated=GENS[0])])
+    fid = "C15-group-attribute-shadows-member-field"
+    got = getattr(g, "name")
+    if got == "alice":
+        ctx.notes.append("known finding %s no longer reproduces" % fid)
+    elif got == "grp/p" and fid in kf:
+        ctx.known_finding(fid, kf[fid]["what"])
+    else:
+        ctx.violation("GroupedRecord('grp/p', [probe/user(name='alice')]).name is %r, expected the member's value 'alice'" % (got,),
+                      dict(kind="group-attribute-probe", finding=fid, got=repr(got)))
 
 
 def group_members(args):
@@ -669,7 +672,7 @@ def case_group_replace(g, T):
             raise Bad("%s: the new group exposes %s, expected %s" % (what, repr(gview), repr(wview)), dict(got=repr(gview), want=repr(wview)))
     check_unchanged(mobs, members, what)
     ok = want is not None
-    terms = ["ogroup_ok (p_group_replace RES vver dflt F %s %s) %s %s %s && omembers_ok (ref_group_replace RES vver %s %s) %s %s" % (
+    terms = ["ogroup_ok (p_group_replace RES vver dflt gen_group_attrs F %s %s) %s %s %s && omembers_ok (ref_group_replace RES vver %s %s) %s %s" % (
         gterm, T.kw(okw), cbool(ok), T.recs(got or []), T.rec(gview) if ok else T.rec(mobs[0]),
         T.recs(mobs), T.kw(okw), cbool(ok), T.recs(got or []))]
     shadow = len({f[0] for m in mobs for f in m["fields"]}) < sum(len(m["fields"]) for m in mobs)
@@ -892,6 +895,10 @@ def search(ctx, reason):
     try:
         defaults = {t: default_of(t) for t in set(TYPES)}
         fixed_cases()
+        nv = len(ctx.violations)
+        probe_known(ctx)
+        if len(ctx.violations) > nv:
+            return True
         for kind, fn, n in KINDS:
             for i in range(n):
                 try:
